@@ -89,7 +89,7 @@ theorem decodeRep_flatMap {f : Dec Val} {g : Val → List UInt8} {p : Val → Bo
       decodeRep_flatMap hf vs r h.2]
 
 theorem decodeBoolByte_enc (b : Bool) : decodeBoolByte (if b then 1 else 0) = some b := by
-  cases b <;> simp [decodeBoolByte, CodecTrivial.boolDecode]
+  cases b <;> simp [decodeBoolByte]
 
 theorem decodeLenPrefixed_append (bs r : List UInt8) (h : bs.length < 2 ^ 64) :
     decodeLenPrefixed (lenPrefixed bs ++ r) = some (.bytes bs, r) := by
@@ -132,7 +132,7 @@ theorem decode_encode_aux : ∀ (t : Ty) (v : Val) (r : List UInt8), hasType t v
   | .bool, v, r, h => by
     cases v <;> simp [hasType] at h
     rename_i b
-    cases b <;> simp [decode, encode, Val.boolD, decodeBoolByte, CodecTrivial.boolDecode]
+    cases b <;> simp [decode, encode, Val.boolD, decodeBoolByte]
   | .unit, v, r, h => by
     cases v <;> simp [hasType] at h
     simp [decode, encode]
@@ -270,7 +270,7 @@ theorem decodeLenPrefixed_sound {bs r : List UInt8} {v : Val} (h : decodeLenPref
 
 theorem decodeBoolByte_sound {b : UInt8} {x : Bool} (h : decodeBoolByte b = some x) :
     b = (if x then 1 else 0) := by
-  simp only [decodeBoolByte, CodecTrivial.boolDecode] at h
+  simp only [decodeBoolByte] at h
   split at h
   · cases h; simp_all
   · split at h
@@ -1302,6 +1302,52 @@ theorem slowEncodeVariant_eq : ∀ (ts : List Ty) (i : Nat) (p : Val), noTrivial
     simp only [noTrivialEnums, Bool.and_eq_true] at hn
     simp only [hasTypeVariant] at h
     simp [slowEncodeVariant, encodeVariant, slowEncodeVariant_eq ts i p hn.2 h]
+end
+
+
+/-! ## the decoder as implemented (validity checks as found in the sources) is the canonical decoder -/
+
+theorem implBoolByte_eq (b : UInt8) : implBoolByte b = decodeBoolByte b := by
+  simp [implBoolByte, CodecTrivial.boolDecode]
+
+theorem decodeRep_congr {f g : Dec Val} (h : ∀ bs, f bs = g bs) : ∀ n bs, decodeRep f n bs = decodeRep g n bs
+  | 0, _ => rfl
+  | n + 1, bs => by
+    simp only [decodeRep, h bs]
+    split
+    · rfl
+    · rw [decodeRep_congr h n]
+
+mutual
+theorem slowDecode_eq : ∀ (t : Ty) (bs : List UInt8), slowDecode t bs = decode t bs
+  | .u8, _ | .u16, _ | .u32, _ | .u64, _ | .u256, _ | .b256, _ | .unit, _ | .strArray _, _ | .bytes, _
+  | .string, _ | .strSlice, _ | .rawSlice, _ | .trivialBool, _ => by simp [slowDecode, decode]
+  | .bool, bs => by
+    cases bs with
+    | nil => simp [slowDecode, decode]
+    | cons b r => simp [slowDecode, decode, implBoolByte_eq]
+  | .array t n, bs => by simp [slowDecode, decode, decodeRep_congr (slowDecode_eq t)]
+  | .tuple ts, bs => by simp [slowDecode, decode, slowDecodes_eq ts]
+  | .struct ts, bs => by simp [slowDecode, decode, slowDecodes_eq ts]
+  | .enum ts, bs => by
+    simp only [slowDecode, decode]
+    split
+    · exact slowDecodeVariant_eq ts _ _ _
+    · rfl
+  | .vec t, bs => by simp [slowDecode, decode, decodeRep_congr (slowDecode_eq t)]
+  | .trivialEnum t, bs => by simp [slowDecode, decode, decodeRep_congr (slowDecode_eq t)]
+theorem slowDecodes_eq : ∀ (ts : List Ty) (bs : List UInt8), slowDecodes ts bs = decodes ts bs
+  | [], _ => rfl
+  | t :: ts, bs => by
+    simp only [slowDecodes, decodes, slowDecode_eq t bs]
+    split
+    · rfl
+    · simp [slowDecodes_eq ts]
+theorem slowDecodeVariant_eq : ∀ (ts : List Ty) (i tag : Nat) (bs : List UInt8),
+    slowDecodeVariant ts i tag bs = decodeVariant ts i tag bs
+  | [], _, _, _ => rfl
+  | t :: _, 0, tag, bs => by simp [slowDecodeVariant, decodeVariant, slowDecode_eq t bs]
+  | _ :: ts, i + 1, tag, bs => by simp [slowDecodeVariant, decodeVariant, slowDecodeVariant_eq ts i tag bs]
 end
 
 end SwayVerif.Abi
